@@ -228,7 +228,14 @@ fn format_timestamp_function(
     let dt = DateTime::from_timestamp(timestamp as i64, 0)
         .ok_or_else(|| tera::Error::msg("Invalid timestamp"))?
         .with_timezone(&Utc);
-    let formatted = dt.format(chrono_format).to_string();
+    // `to_string()` panics when the format string is invalid (e.g. "%Q")
+    let mut formatted = String::new();
+    {
+        use std::fmt::Write as _;
+        write!(formatted, "{}", dt.format(chrono_format)).map_err(|_| {
+            tera::Error::msg(format!("Invalid timestamp format string: '{format}'"))
+        })?;
+    }
 
     Ok(Value::String(formatted))
 }
